@@ -76,6 +76,21 @@ def build(repo, spec_dir, canary=False):
     b.emit('impl RegExpBuilder {')
     emit_setters(b)
     b.emit('}')
+    # RegExpBuilder::build: the pipeline gets the builder's test cases and its settings, as they are, and its text is returned (C10: the result is a function of the
+    # accumulated state; C04/C01: nothing is dropped or rewritten on the way in)
+    b.emit('''pub struct RegExp { pub x: u8 }
+pub uninterp spec fn pipeline_text(test_cases: Seq<String>, config: RegExpConfig) -> Seq<char>;       // what RegExp::from(..).to_string() prints (units regexp, render, format, ..)
+pub uninterp spec fn rx_text(r: RegExp) -> Seq<char>;
+impl RegExp {
+    #[verifier::external_body] pub fn from(test_cases: &mut Vec<String>, config: &RegExpConfig) -> (r: RegExp) ensures rx_text(r) == pipeline_text(old(test_cases)@, *config) { unimplemented!() }
+}
+#[verifier::external_body] pub fn vx_regexp_text(r: RegExp) -> (s: String) ensures s@ == rx_text(r) { unimplemented!() }
+impl RegExpBuilder {''')
+    b.verified_fn('builder.rs', 'build', within=r'^impl RegExpBuilder \{', props=['C07'], fname='RegExpBuilder::build',
+                  extra_rules=[('R16', r'RegExp::from\(([^()]*(?:\([^()]*\)[^()]*)*)\)\.to_string\(\)', r'vx_regexp_text(RegExp::from(\1))', 'to_string() of the pipeline result: its Display text')],
+                  clauses=[Clause('build.hands_test_cases_and_settings_over_as_they_are', 'r@ == pipeline_text(old(self).test_cases@, old(self).config)', ['C10', 'C04', 'C01']),
+                           Clause('build.keeps_the_settings', 'final(self).config == old(self).config', ['C10'])])
+    b.emit('}')
     # the documented panic of RegExpBuilder::from: reachable exactly for an empty list (first statement of the function, R7 + R6)
     f, _, _ = X.fn(b.src('builder.rs'), 'from', within=r'^impl RegExpBuilder \{')
     from vx import rustlex as L
